@@ -116,6 +116,49 @@ func init() {
 		}
 		return []func() [][]byte{func() [][]byte { return nil }, reg("ModeA", 3), reg("ModeB", 5)}
 	}
+	// modeRounds: after modeSpec registered ModeA (window 3) and ModeB (window 5), several rounds in which the three
+	// strongest validators report so that the maximal-power value differs from the weighted median, each tipped in the same
+	// block as a spot-price (median) query so that rounds of both methods close together
+	fragments["modeRounds"] = func(g *Gen) []func() [][]byte {
+		wait := func() [][]byte { return nil }
+		round := func(name string, k int) []func() [][]byte {
+			qd := QueryData(name, abiPack([]string{"uint256"}, big.NewInt(1)))
+			spot := g.spots[k%len(g.spots)]
+			tip := func() [][]byte {
+				var out [][]byte
+				for _, q := range [][]byte{qd, spot} {
+					if s := g.free(g.user); s != nil {
+						out = append(out, g.tx(s, &oracletypes.MsgTip{Tipper: s.Bech(), QueryData: q, Amount: rawCoin(1_000_000)}))
+					}
+				}
+				return out
+			}
+			report := func() [][]byte {
+				// validators ordered by genesis stake: the strongest reports HIGH, the next LOW, the third MID
+				vals := []string{Uint256Value(big.NewInt(9000 + int64(k))), Uint256Value(big.NewInt(10 + int64(k))), Uint256Value(big.NewInt(500 + int64(k)))}
+				var out [][]byte
+				for i := 0; i < 3 && i < g.c.W.Cfg.NumVals; i++ {
+					op := g.c.W.Vals[i].Op
+					if g.tb.Used(op) {
+						continue
+					}
+					out = append(out, g.tx(op, &oracletypes.MsgSubmitValue{Creator: op.Bech(), QueryData: qd, Value: vals[i]}))
+				}
+				// and a spot-price report so that a median round closes nearby
+				if g.c.W.Cfg.NumVals > 3 && !g.tb.Used(g.c.W.Vals[3].Op) {
+					op := g.c.W.Vals[3].Op
+					out = append(out, g.tx(op, &oracletypes.MsgSubmitValue{Creator: op.Bech(), QueryData: spot, Value: Uint256Value(big.NewInt(2000 + int64(k)))}))
+				}
+				return out
+			}
+			return []func() [][]byte{tip, report, wait}
+		}
+		steps := []func() [][]byte{wait, wait, wait, wait, wait, wait}
+		for k := 0; k < 8; k++ {
+			steps = append(steps, round([]string{"ModeA", "ModeB"}[k%2], k)...)
+		}
+		return steps
+	}
 	fragments["deposit1"] = func(g *Gen) []func() [][]byte { return g.depositSteps(1, 100, 0, 8) }
 	fragments["deposit2"] = func(g *Gen) []func() [][]byte { return g.depositSteps(2, 250, 3, 1) }
 	fragments["deposit3"] = func(g *Gen) []func() [][]byte { return g.depositSteps(3, 7, 7, 1) }
@@ -175,6 +218,67 @@ func init() {
 	fragments["depositZero"] = hostileDeposit(12, func(g *Gen) string {
 		return DepositValue([]byte{12, 1}, g.c.W.Users[6].Bech(), big.NewInt(0), big.NewInt(0))
 	})
+	// depositPair: two untipped deposit rounds opened in the same block (so they close in the same block 2000 blocks
+	// later); one reporter is in both, with reports from different heights
+	fragments["depositPair"] = func(g *Gen) []func() [][]byte {
+		val := func(id byte) string {
+			return DepositValue([]byte{id, 5, 5}, g.c.W.Users[int(id)%len(g.c.W.Users)].Bech(), new(big.Int).Mul(big.NewInt(int64(id)), big.NewInt(1e18)), big.NewInt(0))
+		}
+		sub := func(vi int, ids ...uint64) [][]byte {
+			var out [][]byte
+			if vi >= g.c.W.Cfg.NumVals || g.tb.Used(g.c.W.Vals[vi].Op) {
+				return nil
+			}
+			k := g.c.W.Vals[vi].Op
+			var msgs []sdk.Msg
+			for _, id := range ids {
+				msgs = append(msgs, &oracletypes.MsgSubmitValue{Creator: k.Bech(), QueryData: BridgeQuery(true, id), Value: val(byte(id))})
+			}
+			out = append(out, g.tx(k, msgs...))
+			return out
+		}
+		wait := func() [][]byte { return nil }
+		first := func() [][]byte { return append(sub(1, 13, 14), sub(0, 13)...) }
+		second := func() [][]byte {
+			g.FastForward = 2001
+			return append(sub(0, 14), sub(2, 13, 14)...)
+		}
+		return []func() [][]byte{wait, wait, wait, wait, wait, wait, wait, first, second, wait}
+	}
+	// depositExpiryTipped: like depositExpiry for a TIPPED deposit round that already holds a report
+	fragments["depositExpiryTipped"] = func(g *Gen) []func() [][]byte {
+		const id = 15
+		qd := BridgeQuery(true, id)
+		val := DepositValue([]byte{id, 7, 7}, g.c.W.Users[0].Bech(), new(big.Int).Mul(big.NewInt(2), big.NewInt(1e18)), big.NewInt(0))
+		rep := func(idx ...int) func() [][]byte {
+			return func() [][]byte {
+				var out [][]byte
+				for _, i := range idx {
+					if i < g.c.W.Cfg.NumVals && !g.tb.Used(g.c.W.Vals[i].Op) {
+						k := g.c.W.Vals[i].Op
+						out = append(out, g.tx(k, &oracletypes.MsgSubmitValue{Creator: k.Bech(), QueryData: qd, Value: val}))
+					}
+				}
+				return out
+			}
+		}
+		tip := func() [][]byte {
+			if s := g.free(g.user); s != nil {
+				return [][]byte{g.tx(s, &oracletypes.MsgTip{Tipper: s.Bech(), QueryData: qd, Amount: rawCoin(3_000_000)})}
+			}
+			return nil
+		}
+		wait := func() [][]byte { return nil }
+		jump := func() [][]byte {
+			if q, err := g.c.App.OracleKeeper.CurrentQuery(g.c.CommittedCtx(), QueryID(qd)); err == nil {
+				if n := int(q.Expiration) - int(g.c.Height) - 2; n > 0 && n < 3000 {
+					g.FastForward = n
+				}
+			}
+			return nil
+		}
+		return []func() [][]byte{wait, wait, wait, wait, wait, wait, tip, rep(0), jump, rep(1, 2), rep(3, 0), wait}
+	}
 	fragments["mintInit"] = func(g *Gen) []func() [][]byte {
 		// give the chain a few blocks first
 		wait := func() [][]byte { return nil }
